@@ -402,7 +402,7 @@ fn agent_mode(name: &str, rule: &str, tier: &str, seed: u64, prefixes: &[&str], 
     rep
 }
 
-const AGENT_RULE: &str = "call histories of 3..14 operations (every 50th: 200) over {send request/indication/response sealed or not to 4 destinations, poll now / early / exactly at the wake-up / late / far, 9 kinds of incoming message (valid SHA-1/SHA-256 under the remote key, other key, unsigned, corrupted MAC, unknown id, request, indication, error+fingerprint) from 4 sources, cancel, cancel_retransmissions, configure_timeout(rto in {1,7,100,500,1000,60000} ms, 0..=8 retransmits, last in {0,1,300,8000,60000} ms), set/changed remote credentials} for 3 transaction ids, UDP and TCP; after every call the replies and the observables request_transaction / peer_address / is_validated_peer are compared with an abstract agent written from the statement; non-trivial = history with at least one retransmission, delivery, timeout or cancellation.";
+const AGENT_RULE: &str = "EVERY call history of length <= 4 (quick) / <= 5 (thorough, UDP and TCP) over a 12-operation small alphabet, then random call histories of 3..14 operations (every 50th: 200) over {send request/indication/response sealed or not to 4 destinations, poll now / early / exactly at the wake-up / late / far, 9 kinds of incoming message (valid SHA-1/SHA-256 under the remote key, other key, unsigned, corrupted MAC, unknown id, request, indication, error+fingerprint) from 4 sources, cancel, cancel_retransmissions, configure_timeout(rto in {1,7,100,500,1000,60000} ms, 0..=8 retransmits, last in {0,1,300,8000,60000} ms), set/changed remote credentials} for 3 transaction ids, UDP and TCP; after every call the replies and the observables request_transaction / peer_address / is_validated_peer are compared with an abstract agent written from the statement; non-trivial = history with at least one retransmission, delivery, timeout or cancellation.";
 
 pub fn c05(tier: &str, seed: u64) -> Report { agent_mode("c05", AGENT_RULE, tier, seed, &["C05"], false) }
 pub fn c06(tier: &str, seed: u64) -> Report {
